@@ -129,14 +129,26 @@ func TestVerif_C02_connecting(t *testing.T) {
 			if err != nil {
 				tf.Fatalf("harness problem: %v", err)
 			}
-			settle(tf)
-			var mine []vDial
-			for _, d := range tr.Dials()[before:] {
-				if d.Secret == fmt.Sprintf("%x", sec) {
-					mine = append(mine, d)
+			en, tracked := model[key]
+			dialsOf := func() []vDial {
+				var mine []vDial
+				for _, d := range tr.Dials()[before:] {
+					if d.Secret == fmt.Sprintf("%x", sec) {
+						mine = append(mine, d)
+					}
+				}
+				return mine
+			}
+			if built > 0 && !tracked && (m.Covert == "ok" || m.Covert == "ok2") && (m.V6 || !m.Live) {
+				// a dial is expected: it is made by a goroutine the ingest step started, wait for it
+				// (only its absence after a long wait is a finding)
+				for deadline := time.Now().Add(30 * time.Second); time.Now().Before(deadline) && len(dialsOf()) == 0; time.Sleep(100 * time.Microsecond) {
 				}
 			}
-			en, tracked := model[key]
+			// fence for the dials that must NOT happen (best effort: a dial that is made even later
+			// than the sentinel's is missed, never invented)
+			settle(tf)
+			mine := dialsOf()
 			passes := (m.Covert == "ok" || m.Covert == "ok2") && (m.V6 || !m.Live)
 			wantDial := false
 			switch {
